@@ -228,6 +228,11 @@ func init() {
 	registerRule(&RuleDef{ID: "GEN-ENUM", Min: 1, Doc: "enum alias names only with enum types on", Run: ruleGENENUM})
 	registerRule(&RuleDef{ID: "L-ATOM", Min: 8, Doc: "no value read from a guarded field is used in a later critical section of the same lock (split critical section / check-then-act)", Run: ruleLATOM("client", "cache", "server", "database/inmemory")})
 	add("C05", "L-ATOM")
+	registerRule(&RuleDef{ID: "T-UUIDFREE", Min: 1, Doc: "an insert's uuid is checked to be free before the update is built", Run: ruleTUUIDFREE})
+	add("C02", "T-UUIDFREE")
+	add("C17", "T-UUIDFREE")
+	registerRule(&RuleDef{ID: "P-NIL-REFLECT", Min: 0, Doc: "no method call on reflect.TypeOf(x) with x possibly nil in the wire-to-native conversion", Run: rulePNILREFLECT})
+	add("C19", "P-NIL-REFLECT")
 	registerRule(&RuleDef{ID: "MAP-EQ", Min: 1, Doc: "maps are not compared entry by entry through single-value lookups", Run: ruleMAPEQ})
 	add("C10", "MAP-EQ")
 	add("C13", "MAP-EQ")
